@@ -277,6 +277,10 @@ class QueryWorld:
                 k = ip.dict_key(x, node)
                 d.entries[k] = Const(d.entries[k].v + 1) if k in d.entries else Const(1)
             return d
+        if name in ("max", "min") and len(args) == 1 and isinstance(args[0], SnapView) and not kwargs:
+            return self.ids[-1] if name == "max" else self.ids[0]
+        if name in ("sorted", "list") and len(args) == 1 and isinstance(args[0], SnapView) and not kwargs:
+            return ListObj(list(self.ids))
         if name in ("max", "min") and len(args) == 1 and isinstance(args[0], DictObj):
             ks = list(args[0].entries.keys())
             if ks and all(isinstance(k, Const) for k in ks):
